@@ -643,7 +643,7 @@ func init() {
 		Run: c07Run,
 		Describe: func(tier string, s *report.Stats, cases int) Evidence {
 			return Evidence{
-				Rule: "A case is one well-formed reactive program (Reset, selector writes with values that wrap at 0/63 and out-of-range values, incrementing and plain register writes with ADJ 0..6, selector read-backs whose result is written back, CSel/NSel observer calls, Generator gradient helpers, SetPathData and mdicons.ParsePathData strings, hand-written gradients, paths with run-length groups past the 16/32 limits, resolution flag) run independently against a Renderer+recording rasteriser, an Encoder and a plain recorder, under a drawn topology (DestinationLogger in front of any party, Encoder fresh or dirtied by an aborted earlier graphic, five rectangles). After every step the selectors of Encoder and Renderer are compared mod 64 and helper errors compared; after every step that leaves the protocol in styling mode (and at one drawn point inside an open path) the stream is cut, decoded by the real decoder into a fresh Renderer, and its selectors compared with what the Encoder reported; at the end the call logs and rasteriser logs of the two pipelines are compared. No fault is injected: the property is stated for an intact channel. distinct_nontrivial = hash-bitmap count of distinct programs with an incrementing register write followed later by a read-back or helper call.",
+				Rule: "A case is one well-formed reactive program (Reset, selector writes with values that wrap at 0/63 and out-of-range values, incrementing and plain register writes with ADJ 0..6, selector read-backs whose result is written back, CSel/NSel observer calls, Generator gradient helpers, SetPathData and mdicons.ParsePathData strings, hand-written gradients, paths with run-length groups past the 16/32 limits, resolution flag) run independently against a Renderer+recording rasteriser, an Encoder and a plain recorder, under a drawn topology (DestinationLogger in front of any party, Encoder fresh or dirtied by an aborted earlier graphic, five rectangles). After every step the selectors of Encoder and Renderer are compared mod 64 and helper errors compared; after every step that leaves the protocol in styling mode (and at one drawn point inside an open path) the stream is cut, decoded by the real decoder into a fresh Renderer, and its selectors compared with what the Encoder reported; at the end the call logs and rasteriser logs of the two pipelines are compared; finally the decoder relays the stream into a second Encoder (selectors compared with the Renderer fed by the same decoder; where the first trip was exact, a second decode must render bit for bit like the direct pipeline). No fault is injected: the property is stated for an intact channel. distinct_nontrivial = hash-bitmap count of distinct programs with an incrementing register write followed later by a read-back or helper call.",
 				Extra: map[string]interface{}{
 					"fault_kinds_fired":     "none (by the property's own statement: intact channel)",
 					"program_steps":         s.Counters["steps"],
@@ -654,7 +654,7 @@ func init() {
 					"runs_with_inexact_coordinates_(carried within the format's quantisation; rasteriser coordinates compared within a few quanta)": s.Counters["codec_inexact_coordinates"],
 					"runs_where_call_logs_differ_structurally_but_rendering_agrees":                                                                 s.Counters["runs_where_call_logs_differ_but_rendering_agrees"],
 					"cases_set_aside_because_the_code_panicked_(not this property's business; C02 reports panics)":                                  s.Counters["cases_set_aside_because_the_code_panicked"],
-					"topologies": map[string]int64{"with a DestinationLogger": s.Counters["topology_with_logger"], "Encoder reused": s.Counters["topology_encoder_reused"]},
+					"topologies": map[string]int64{"with a DestinationLogger": s.Counters["topology_with_logger"], "Encoder reused": s.Counters["topology_encoder_reused"], "relay hop (decoder -> second Encoder; its selectors vs the Renderer's)": s.Counters["relay_runs"], "relay hop decoded again and compared bit for bit with direct rendering (first trip exact)": s.Counters["relay_second_trip_compared_bit_exact"]},
 					"reach_probes": map[string]int64{
 						"incrementing write followed by read-back/helper": s.Counters["probe_incr_write_then_readback_or_helper"],
 						"a gradient was actually painted":                 s.Counters["probe_gradient_painted"],
